@@ -223,6 +223,44 @@ fn bmff_refs_before(kind: &str, a: &[u8]) -> BTreeSet<String> {
     out
 }
 
+/// For every top-level box entry that differs between `ca` and `cb` (same name, same length): if the bytes are
+/// equal outside the offset fields that `bmff_offset_refs` reports for either file, make the entries equal.
+fn bmff_blank_offset_fields(kind: &str, a: &[u8], b: &[u8], ca: &mut Content, cb: &mut Content) {
+    let (Ok(ua), Ok(ub), Ok(ra), Ok(rb)) = (walk::walk(kind, a), walk::walk(kind, b), walk::bmff_offset_refs(a), walk::bmff_offset_refs(b)) else { return };
+    let ua: Vec<_> = ua.into_iter().filter(|u| !u.is_manifest).collect();
+    let ub: Vec<_> = ub.into_iter().filter(|u| !u.is_manifest).collect();
+    let boxes_a: Vec<usize> = ca.iter().enumerate().filter(|(_, e)| !is_deref(&e.0)).map(|(i, _)| i).collect();
+    let boxes_b: Vec<usize> = cb.iter().enumerate().filter(|(_, e)| !is_deref(&e.0)).map(|(i, _)| i).collect();
+    if boxes_a.len() != ua.len() || boxes_b.len() != ub.len() || ua.len() != ub.len() {
+        return;
+    }
+    for j in 0..ua.len() {
+        let (ia, ib) = (boxes_a[j], boxes_b[j]);
+        if ca[ia].0 != cb[ib].0 || ca[ia].1.len() != cb[ib].1.len() || ca[ia].1 == cb[ib].1 {
+            continue;
+        }
+        // relative position -> width of every offset field known from either file
+        let mut fields: std::collections::BTreeMap<usize, usize> = Default::default();
+        for (u, refs) in [(&ua[j], &ra), (&ub[j], &rb)] {
+            for r in refs.iter().filter(|r| r.entry_pos >= u.payload_start && r.entry_pos < u.start + u.len) {
+                let w = fields.entry(r.entry_pos - u.payload_start).or_insert(0);
+                *w = (*w).max(r.width as usize);
+            }
+        }
+        let (mut xa, mut xb) = (ca[ia].1.clone(), cb[ib].1.clone());
+        for (p, w) in fields {
+            for k in p..(p + w).min(xa.len()) {
+                xa[k] = 0;
+                xb[k] = 0;
+            }
+        }
+        if xa == xb {
+            ca[ia].1 = xa.clone();
+            cb[ib].1 = xa;
+        }
+    }
+}
+
 fn first_diff(a: &Content, b: &Content) -> String {
     let i = a.iter().zip(b.iter()).position(|(x, y)| x != y).unwrap_or(a.len().min(b.len()));
     let show = |c: &Content| match c.get(i) {
@@ -271,6 +309,10 @@ fn compare(kind: &str, format: &str, a: &[u8], b: &[u8]) -> Result<Vec<(String, 
                 let pred = |n: &str| is_deref(n) && before.contains(&ref_key(n));
                 drop(&mut ca, &pred);
                 drop(&mut cb, &pred);
+                // A base offset that the wrong shift turns into exactly 0 changes which iloc fields count as
+                // absolute offsets (and are blanked by the extractor): compare the table boxes with the offset
+                // fields of *both* files blanked.
+                bmff_blank_offset_fields(kind, a, b, &mut ca, &mut cb);
             }
         }
     }
@@ -742,7 +784,7 @@ fn main() {
         run.note(format!("VERIF_SELFTEST={} — the SDK's output is corrupted on purpose", selftest()));
     }
 
-    let per_kind: u32 = run.scale(150, 2000);
+    let per_kind: u32 = run.scale(150, 6000);
     for kind in assets::KINDS {
         let kind: &'static str = kind;
         let n = if kind == "avi" { per_kind * 2 } else { per_kind };
@@ -750,7 +792,7 @@ fn main() {
     }
     // the toolkit's spec-valid layouts that the SDK's parsers are known to mis-handle
     let mut vcases = vec![];
-    let nv = run.scale(6u64, 120u64);
+    let nv = run.scale(6u64, 300u64);
     for (kind, variant) in assets::VARIANTS {
         for i in 0..nv {
             let existing = if i % 2 == 0 { None } else { Some(MIN_STORE + (i as usize * 37) % 900) };
